@@ -183,7 +183,9 @@ func KeyOf(u *url.URL) URIKey {
 	}
 	lhost := strings.TrimSuffix(hostKey, ".")
 	k.Loose = scheme + "://" + lhost + ":" + loosePort + lp
-	if query != "" {
+	if hasQ {
+		// (an empty query - a bare "?" - is part of the request target and
+		// RFC 3986 §6.2.3 does not equate it with "no query")
 		k.Loose += "?" + nq
 	}
 	return k
